@@ -9,6 +9,8 @@ Line-protocol driver of the C14 model (ByteStream / CAS / AC services and the CA
     fault put <code> <early 0|1> | fault get <code> | fault fm <code> | fault clear
     dec <hexin> <c|t|x> <hexout>              declare the decoder's behaviour on one input
     write <kind> <hash> <size> <eof|e<code>> <senderr> [; <off> <hex> <fin 0|1>]*
+    getmode slice | getmode stream <piece> <k|-> <code>   how Get serves ByteStream.Read: eagerly validated
+                                                          slice, or streaming CAS buffer failing after k bytes
     read <kind> <hash> <size> <off> <limit> <failat>
     bupd <call> [; <bad> <hash> <size> <hex>]*     call := ok | instance | function | digest (+ .variant)
     bread <call> [; <bad> <hash> <size>]*
@@ -98,6 +100,8 @@ structure S where
   getFault : Option Nat := none
   fmFault : Option Nat := none
   decTab : List (Bytes × (Bytes × DFin)) := []
+  /-- `some (piece, fail)`: ByteStream.Read is served from a streaming CAS buffer -/
+  getMode : Option (Nat × Option (Nat × Nat)) := none
 
 def splitOn (ws : List String) (sep : String) : List (List String) :=
   let rec go : List String → List String → List (List String) → List (List String)
@@ -190,7 +194,8 @@ where
 
 def showRead (r : ReadOut) : String :=
   match r.res, r.zdata with
-  | some e, _ => s!"err {showErr e} {showChunks r.sent}"
+  | some e, some z => s!"err {showErr e} {bytesHex z}"
+  | some e, none => s!"err {showErr e} {showChunks r.sent}"
   | none, some z => s!"okz {bytesHex z}"
   | none, none => s!"ok {showChunks r.sent}"
 
@@ -233,6 +238,16 @@ def step (s : S) (line : String) : S × String :=
     | _, _ => (s, "bad-op")
   | ["fault", "get", c] => match nat? c with | some c => ({ s with getFault := some c }, "ok") | none => (s, "bad-op")
   | ["fault", "fm", c] => match nat? c with | some c => ({ s with fmFault := some c }, "ok") | none => (s, "bad-op")
+  | ["getmode", "slice"] => ({ s with getMode := none }, "ok")
+  | ["getmode", "stream", piece, k, code] =>
+    match nat? piece, nat? code with
+    | some piece, some code =>
+      if piece = 0 then (s, "bad-op")
+      else if k == "-" then ({ s with getMode := some (piece, none) }, "ok")
+      else match nat? k with
+        | some k => ({ s with getMode := some (piece, some (k, code)) }, "ok")
+        | none => (s, "bad-op")
+    | _, _ => (s, "bad-op")
   | ["dec", i, f, o] =>
     let fin : Option DFin := if f == "c" then some .clean else if f == "t" then some .trunc else if f == "x" then some .corrupt else none
     match hexBytes? i, fin, hexBytes? o with
@@ -245,7 +260,16 @@ def step (s : S) (line : String) : S × String :=
   | ["read", k, h, sz, off, lim, fa] =>
     match kind? k, digest? h sz, int? off, int? lim, nat? fa with
     | some k, some d, some off, some lim, some fa =>
-      (s, showRead (read idCodec s.flags s.cas k d off lim s.cs fa s.getFault))
+      match s.getMode with
+      | none => (s, showRead (read idCodec s.flags s.cas k d off lim s.cs fa s.getFault))
+      | some (piece, fail) =>
+        let src : Except Err Source :=
+          match s.getFault with
+          | some code => .error (eInjected code)
+          | none => match s.cas.get d with
+            | none => .error eNotFound
+            | some data => .ok (mkSource piece fail data)
+        (s, showRead (readS idCodec s.flags src k d off lim s.cs fa))
     | _, _, _, _, _ => (s, "bad-op")
   | "bupd" :: c :: rest =>
     match call? c, (sections? rest).bind (·.mapM upd?) with
